@@ -13,7 +13,7 @@ use vcommon::{
 use zlink_core::Reply;
 
 pub const RULE: &str = "case = an operation list over {Set (values 1,2,3,... through the state or a \
-clone of it), SetSame (set the value that is already current), Subscribe, Poll(i) (one poll_next of subscriber i with a no-op waker), Clone, \
+clone of it), SetSame (set the value that is already current), Subscribe, Poll(i) (one poll_next of subscriber i with that subscriber's own counting waker), Clone, \
 DropOriginal} with up to 6 sets and up to 3 subscribers created at arbitrary points, followed by \
 draining every subscriber, then dropping every state and draining again; run against \
 zlink_tokio::notified and zlink_smol::notified. Oracle (model): what subscriber i receives is a \
@@ -21,7 +21,7 @@ subsequence of the values set after it subscribed, each marked continues = \
 true; whenever a poll returns Pending its last value is the last value set since it subscribed and, if anything was set since it last was up to date, it has received something since (it \
 is up to date); a poll never returns end-of-stream while a state (or clone) exists; after all \
 states are gone the stream ends, and the last value set has been seen by then; setting never fails \
-or panics, with or without subscribers. One-shot: notify before / after the first poll gives \
+or panics, with or without subscribers; a subscriber whose last poll returned Pending has had its waker woken by the time the next set completed / the last state was dropped (likewise the one-shot stream when the notifier notifies or is dropped). One-shot: notify before / after the first poll gives \
 exactly one item marked continues = false and then the end; a dropped notifier gives just the end. \
 Both runtimes must satisfy the same rules (trace equality between them is recorded, not demanded). \
 All operation lists up to length 7 over {Set, SetSame, Subscribe, Poll0, Poll1} are enumerated. \
@@ -125,6 +125,35 @@ enum Got {
     End,
 }
 
+/// A waker that counts how often it was woken: one per subscriber, so that "a parked subscriber is
+/// woken by the next set / by the end of the state" can be observed without a runtime.
+#[derive(Debug, Default)]
+struct WakeCount(std::sync::atomic::AtomicUsize);
+impl std::task::Wake for WakeCount {
+    fn wake(self: std::sync::Arc<Self>) {
+        self.0.fetch_add(1, std::sync::atomic::Ordering::SeqCst);
+    }
+    fn wake_by_ref(self: &std::sync::Arc<Self>) {
+        self.0.fetch_add(1, std::sync::atomic::Ordering::SeqCst);
+    }
+}
+impl WakeCount {
+    fn count(&self) -> usize {
+        self.0.load(std::sync::atomic::Ordering::SeqCst)
+    }
+}
+
+fn poll_with<S: futures_util::Stream<Item = Reply<u64>> + Unpin>(s: &mut S, w: &std::sync::Arc<WakeCount>) -> Got {
+    let waker = std::task::Waker::from(w.clone());
+    let mut cx = std::task::Context::from_waker(&waker);
+    match futures_util::Stream::poll_next(Pin::new(s), &mut cx) {
+        Poll::Pending => Got::Pending,
+        Poll::Ready(None) => Got::End,
+        Poll::Ready(Some(r)) => Got::Item(r.parameters().copied().unwrap_or(u64::MAX), r.continues()),
+    }
+}
+
+#[allow(dead_code)]
 fn poll<S: futures_util::Stream<Item = Reply<u64>> + Unpin>(s: &mut S) -> Got {
     match poll_next_once(Pin::new(s)) {
         Poll::Pending => Got::Pending,
@@ -146,6 +175,24 @@ struct SubModel {
     items_since_pending: usize,
     lagged: bool,
     late: bool,
+    /// this subscriber's waker, and its wake count at the moment its last poll returned Pending
+    /// (None = not parked: the last poll returned something)
+    waker: std::sync::Arc<WakeCount>,
+    parked_at: Option<usize>,
+}
+
+impl SubModel {
+    /// A subscriber whose last poll returned Pending must have been woken since (after a set, or
+    /// when the last state went away); otherwise no runtime would ever poll it again.
+    fn woken_if_parked(&self, i: usize, what: &str, name: &str) -> Result<(), Fail> {
+        match self.parked_at {
+            Some(at) if self.waker.count() == at => Err(Fail::new(
+                "parked-subscriber-not-woken",
+                format!("[{name}] subscriber {i}: its last poll returned Pending, then {what}, but its waker was not woken (under a runtime it would sleep on although a value / the end is waiting)"),
+            )),
+            _ => Ok(()),
+        }
+    }
 }
 
 /// Executes the operations; returns the trace (for cross-runtime statistics) or the violation.
@@ -224,6 +271,9 @@ fn run_ops<N: Notified>(ops: &[Op], rt: Runtime, stats: &mut Stats) -> Result<Ve
                     return fail("get-after-set", format!("get() after set({next}) gives {}", N::get(st)));
                 }
                 any_set = true;
+                for (i, (_, m)) in subs.iter().enumerate() {
+                    m.woken_if_parked(i, &format!("set({next}) completed"), &name)?;
+                }
                 for (_, m) in &mut subs {
                     m.set_since.push(next);
                     m.sets_since_poll += 1;
@@ -238,7 +288,7 @@ fn run_ops<N: Notified>(ops: &[Op], rt: Runtime, stats: &mut Stats) -> Result<Ve
                     continue;
                 }
                 let Some(st) = states.iter().flatten().next() else { continue };
-                subs.push((N::stream(st), SubModel { set_since: vec![], seen: vec![], sets_since_poll: 0, match_pos: 0, sets_since_pending: 0, items_since_pending: 0, lagged: false, late: any_set }));
+                subs.push((N::stream(st), SubModel { set_since: vec![], seen: vec![], sets_since_poll: 0, match_pos: 0, sets_since_pending: 0, items_since_pending: 0, lagged: false, late: any_set, waker: Default::default(), parked_at: None }));
             }
             Op::Poll(i) => {
                 let i = i as usize;
@@ -246,7 +296,9 @@ fn run_ops<N: Notified>(ops: &[Op], rt: Runtime, stats: &mut Stats) -> Result<Ve
                     continue;
                 }
                 let alive = states.iter().any(|s| s.is_some());
-                let got = poll(&mut subs[i].0);
+                let w = subs[i].1.waker.clone();
+                let got = poll_with(&mut subs[i].0, &w);
+                subs[i].1.parked_at = if got == Got::Pending { Some(w.count()) } else { None };
                 judge(i, &got, &mut subs[i].1, alive, &name)?;
             }
             Op::Clone => {
@@ -271,7 +323,9 @@ fn run_ops<N: Notified>(ops: &[Op], rt: Runtime, stats: &mut Stats) -> Result<Ve
     // drain every subscriber (state still alive): must converge on the latest value
     for (i, (s, m)) in subs.iter_mut().enumerate() {
         for _ in 0..10 {
-            let got = poll(s);
+            let w = m.waker.clone();
+            let got = poll_with(s, &w);
+            m.parked_at = if got == Got::Pending { Some(w.count()) } else { None };
             judge(i, &got, m, true, &name)?;
             if got == Got::Pending {
                 break;
@@ -280,10 +334,14 @@ fn run_ops<N: Notified>(ops: &[Op], rt: Runtime, stats: &mut Stats) -> Result<Ve
     }
     // drop all states: streams must end
     states.clear();
+    for (i, (_, m)) in subs.iter().enumerate() {
+        m.woken_if_parked(i, "every state was dropped", &name)?;
+    }
     for (i, (s, m)) in subs.iter_mut().enumerate() {
         let mut ended = false;
         for _ in 0..10 {
-            let got = poll(s);
+            let w = m.waker.clone();
+            let got = poll_with(s, &w);
             judge(i, &got, m, false, &name)?;
             match got {
                 Got::End => {
@@ -377,6 +435,8 @@ fn run_once<N: Notified>(c: OnceCase, rt: Runtime) -> CaseResult {
     let mut once = Some(once);
     let mut got = Vec::new();
     let mut notified = false;
+    let w: std::sync::Arc<WakeCount> = Default::default();
+    let mut parked_at: Option<usize> = None;
     let prefix: &[u8] = match c {
         OnceCase::NotifyThenPoll => b"n",
         OnceCase::PollThenNotify => b"pn",
@@ -386,13 +446,20 @@ fn run_once<N: Notified>(c: OnceCase, rt: Runtime) -> CaseResult {
     };
     for step in prefix {
         match step {
-            b'n' => {
-                N::notify(once.take().unwrap(), 42);
-                notified = true;
+            b'n' | b'd' => {
+                if *step == b'n' {
+                    N::notify(once.take().unwrap(), 42);
+                    notified = true;
+                } else {
+                    drop(once.take());
+                }
+                if parked_at == Some(w.count()) {
+                    return Err(Fail::new("parked-subscriber-not-woken", format!("[{name}] {c:?}: the one-shot stream was polled (Pending), then the notifier {} but the stream's waker was not woken", if notified { "notified" } else { "was dropped" })));
+                }
             }
-            b'd' => drop(once.take()),
             _ => {
-                let g = poll(&mut s);
+                let g = poll_with(&mut s, &w);
+                parked_at = Some(w.count());
                 if g != Got::Pending {
                     return Err(Fail::new("once-early-result", format!("[{name}] {c:?}: poll before notify / drop gave {g:?}")));
                 }
